@@ -291,6 +291,24 @@ func runCase(t *testing.T, transport, op, point, cause string) (line string) {
 			w.collect()
 		}
 
+		// sentaf ("sent, after failures"): the connection is not fresh - the application has just issued a series of one-way
+		// writes whose context had already ended (each returns its context's error at once); the operation that is interrupted
+		// is the SECOND kind of use of the connection and must behave as on a fresh one
+		if point == "sentaf" {
+			for i := 0; i < 24; i++ {
+				dctx, dcancel := context.WithCancel(baseCtx)
+				dcancel()
+				m := w.cc.AcquireMessage(dctx)
+				m.SetCode(codes.POST)
+				m.SetToken(message.Token{0x66, byte(i)})
+				_ = m.SetPath("/gone")
+				_ = w.cc.WriteMessage(m)
+				w.cc.ReleaseMessage(m)
+			}
+			synctest.Wait()
+			w.collect()
+		}
+
 		var causeAt time.Time
 		if point == "pre" {
 			causeAt = applyCause()
